@@ -31,7 +31,7 @@ RULE = (
 )
 ASSUMPTIONS = [
     "interleavings are explored at the harness's yield points only (pre-emption inside NumPy / pure Python sections is not)",
-    "the per-variable lock is xarray's SerializableLock (its methods are made cooperative in the harness process; no repo change)",
+    "the lock object the library attaches to a lazily indexed image variable is wrapped by a cooperative proxy in the harness process (no repo change); two proxies are the same lock iff the real lock underneath is the same object",
 ]
 BUDGET = {"quick": 120, "thorough": 1800}
 JOBS = {"quick": 4, "thorough": 16}
@@ -45,7 +45,9 @@ SELECTIONS = [
     {"rows": ("list", [4, 0])},
 ]
 SCENARIOS = ["same-var-2", "same-var-3", "different-vars", "pickled+original", "pickled-only", "mixed-3",
-             "same-geometry-vars", "same-geometry-pickled"]
+             "same-geometry-vars", "same-geometry-pickled",
+             # the same on a filesystem that hands out one shared file object per path (memory://)
+             "same-var-2@shared", "pickled+original@shared", "pickled-only@shared", "mixed-3@shared"]
 
 
 class SchedulerAbort(BaseException):
@@ -148,74 +150,84 @@ class Scheduler:
 
 
 ACTIVE = {"sched": None}
-_patched = False
 
 
-def patch_lock():
-    """make xarray's SerializableLock cooperative (only while a scheduler is active)"""
-    global _patched
-    if _patched:
-        return
-    from xarray.backends.locks import SerializableLock
+class CoopLock:
+    """cooperative stand-in for whatever lock object the library attached to a lazily indexed image
+    variable (xarray's SerializableLock today).  While a scheduler is active, acquiring is a yield
+    point and the scheduler decides who gets the lock; two CoopLocks stand for the same lock iff
+    the real locks underneath are the same object (a pickled copy of a SerializableLock shares
+    its lock through the token registry)."""
 
-    orig_enter, orig_exit = SerializableLock.__enter__, SerializableLock.__exit__
-    orig_acquire, orig_release = SerializableLock.acquire, SerializableLock.release
+    def __init__(self, real):
+        self.real = real
+        self.primitive = getattr(real, "lock", real)
+        self.key = id(self.primitive)
 
-    def take(lock):
-        # the scheduler only grants a lock its model says is free; if the real lock is still
-        # held, an earlier load did not release it
-        if not lock.lock.acquire(blocking=False):
-            raise RuntimeError("lock still held after an earlier load finished (never released)")
-        return True
-
-    def managed():
+    def _managed(self):
         s = ACTIVE["sched"]
         return s if s is not None and s.tid() is not None else None
 
-    def enter(self):
-        s = managed()
-        if s is None:
-            return orig_enter(self)
-        s.yield_point(("lock", self.token), need=self.token)
-        take(self)
-
-    def exit_(self, *args):
-        s = managed()
-        if s is None:
-            return orig_exit(self, *args)
-        self.lock.release()
-        s.release(self.token)
+    def _take(self):
+        # the scheduler only grants a lock its model says is free; if the real lock is still
+        # held, an earlier load did not release it
+        if not self.primitive.acquire(blocking=False):
+            raise RuntimeError("lock still held after an earlier load finished (never released)")
+        return True
 
     def acquire(self, *args, **kwargs):
-        s = managed()
+        s = self._managed()
         if s is None:
-            return orig_acquire(self, *args, **kwargs)
-        s.yield_point(("lock", self.token), need=self.token)
-        return take(self)
+            return self.real.acquire(*args, **kwargs)
+        s.yield_point(("lock", self.key), need=self.key)
+        return self._take()
 
     def release(self, *args, **kwargs):
-        s = managed()
+        s = self._managed()
         if s is None:
-            return orig_release(self, *args, **kwargs)
-        self.lock.release()
-        s.release(self.token)
+            return self.real.release(*args, **kwargs)
+        self.primitive.release()
+        s.release(self.key)
 
-    SerializableLock.__enter__ = enter
-    SerializableLock.__exit__ = exit_
-    SerializableLock.acquire = acquire
-    SerializableLock.release = release
-    _patched = True
+    def __enter__(self):
+        self.acquire()
+        return self
+
+    def __exit__(self, *exc):
+        self.release()
+
+    def locked(self):
+        return self.primitive.locked()
+
+
+def install_cooperative_locks(tree):
+    """replace the lock of every lazily indexed image variable of the tree by a CoopLock"""
+    found = 0
+    for node in tree.subtree:
+        for var in node.to_dataset(inherit=False).variables.values():
+            obj, seen = getattr(var, "_data", None), 0
+            while obj is not None and seen < 8:
+                lock = getattr(obj, "lock", None)
+                if lock is not None and hasattr(lock, "acquire") and not isinstance(lock, CoopLock):
+                    obj.lock = CoopLock(lock)
+                    found += 1
+                    break
+                obj, seen = getattr(obj, "array", None), seen + 1
+    return found
 
 
 @functools.lru_cache(maxsize=None)
-def world():
-    patch_lock()
+def world(shared=False):
     # HH and VH have the same geometry (same record length, same chunk byte sizes), HV differs
     spec = common.spec_from({"level": "1.5", "images": [{"lines": 5, "pixels": 3}, {"lines": 5, "pixels": 2}, {"lines": 5, "pixels": 3}], "vseed": 19})
     files, info = product.build_product(spec)
     prod = harness.Materialised(files, "vtrace").__enter__()
+    if shared:
+        # one shared file object per path, as fsspec's memory filesystem hands out
+        vtrace.STORE.shared_products.add(prod.name)
     tree = harness.open_tree(prod.url, use_cache=False, records_per_chunk=2)
     copy = pickle.loads(pickle.dumps(tree))
+    NOTES[f"cooperative-locks-installed={install_cooperative_locks(tree) + install_cooperative_locks(copy)}"] += 0
     return tree, copy
 
 
@@ -228,8 +240,13 @@ def to_sel(sel):
     return {"rows": list(rest[0])}
 
 
+def is_shared(scenario):
+    return scenario.endswith("@shared")
+
+
 def actors(scenario):
     """[(which tree, image group)] per thread"""
+    scenario = scenario.split("@")[0]
     return {
         "same-var-2": [("tree", "HH"), ("tree", "HH")],
         "same-var-3": [("tree", "HH"), ("tree", "HH"), ("tree", "HH")],
@@ -244,16 +261,16 @@ def actors(scenario):
 
 
 @functools.lru_cache(maxsize=None)
-def sequential(which, group, sel_index):
+def sequential(which, group, sel_index, shared=False):
     """single-threaded reference (also run under the scheduler, so a load that never returns is seen)"""
-    results, errors, sched = run_threads([(which, group)], [sel_index], [])
+    results, errors, sched = run_threads([(which, group)], [sel_index], [], shared)
     if errors or sched.deadlock:
         return ("error", errors.get(0, "deadlock in a single-threaded load"))
     return results[0]
 
 
-def run_threads(acts, sels, schedule):
-    tree, copy = world()
+def run_threads(acts, sels, schedule, shared=False):
+    tree, copy = world(shared)
     sched = Scheduler(schedule, len(acts))
     results, errors = {}, {}
 
@@ -292,8 +309,9 @@ def run_threads(acts, sels, schedule):
 def execute(scenario, sels, schedule):
     """run one schedule; returns (discrepancies, scheduler)"""
     acts = actors(scenario)
-    refs = [sequential(w, g, s) for (w, g), s in zip(acts, sels)]
-    results, errors, sched = run_threads(acts, sels, schedule)
+    shared = is_shared(scenario)
+    refs = [sequential(w, g, s, shared) for (w, g), s in zip(acts, sels)]
+    results, errors, sched = run_threads(acts, sels, schedule, shared)
     out = []
     ctx = {"choices": list(sched.choices), "scenario": scenario}
     for tid, ref in enumerate(refs):
@@ -335,17 +353,18 @@ def run_fault_case(case):
     """a load that fails with a transient I/O error must leave the variable usable: the loads
     that follow (same thread, other threads, pickled copy) finish and return the right values"""
     acts = actors(case["scenario"])
-    refs = [sequential(w, g, s) for (w, g), s in zip(acts, case["sels"])]
+    shared = is_shared(case["scenario"])
+    refs = [sequential(w, g, s, shared) for (w, g), s in zip(acts, case["sels"])]
     vtrace.STORE.fail_reads = 1
     try:
-        results, errors, sched = run_threads(acts[:1], case["sels"][:1], [])
+        results, errors, sched = run_threads(acts[:1], case["sels"][:1], [], shared)
     finally:
         vtrace.STORE.fail_reads = 0
     out = []
     ctx = {"scenario": case["scenario"], "after": "a load that failed with an injected OSError"}
     if 0 not in errors:
         out.append(harness.disc("io-error-swallowed", "load with a failing read", "the OSError is raised", "values returned", **ctx))
-    results, errors, sched = run_threads(acts, case["sels"], case["schedule"])
+    results, errors, sched = run_threads(acts, case["sels"], case["schedule"], shared)
     if sched.deadlock:
         return out + [harness.disc("deadlock", "loads after a failed load", "all threads finish", f"no runnable thread; lock owners {sched.owner}", **ctx)]
     for tid, ref in enumerate(refs):
